@@ -383,7 +383,7 @@ def extract(repo: str) -> t.Dict[str, t.Any]:
                 (order if name == "normalize_identifiers" else quote if name == "quote_identifiers_func" else render).append(d.id)
 
     V().visit(ns)
-    if len(order) != 2 or len(render) != 1 or len(quote) != 1:
+    if len(order) not in (1, 2) or len(render) != 1 or len(quote) != 1:
         raise Untranslatable(obn, f"unexpected call structure: normalize_identifiers x{len(order)}, .sql x{len(render)}, quote x{len(quote)}")
     # `if not to_dialect: to_dialect = from_dialect` and the symbolic resolution of both arguments
     src = ast.unparse(ns)
